@@ -24,7 +24,9 @@ Fixpoint queued (evs : list ev) : bytes :=
 
 Definition is_env (e : ev) : bool := match e with EvEnv _ => true | _ => false end.
 Definition is_q (e : ev) : bool := match e with EvQ _ => true | _ => false end.
-Definition is_fail (e : ev) : bool := match e with EvRc E0 => false | EvRc _ => true | _ => false end.
+(** a command refused for its syntax (500; nothing was done) is not a failed chunk *)
+Definition rc_ok (e : err) : bool := match e with E0 | EINVAL | E2BIG => true | _ => false end.
+Definition is_fail (e : ev) : bool := match e with EvRc e => negb (rc_ok e) | _ => false end.
 
 Definition total (cmds : list (nat * bool * nat)) : nat := fold_right (fun c a => fst (fst c) + a) 0 cmds.
 
@@ -56,28 +58,174 @@ Fixpoint find_env (evs : list ev) (idx : nat) (q : bytes) (ok : bool)
   | [] => None
   | EvEnv n :: t => Some (idx, n, q, ok, t)
   | EvQ b :: t => find_env t idx (q ++ b) ok
-  | EvRc e :: t => find_env t (S idx) q (ok && err_eqb e E0)
+  | EvRc e :: t => find_env t (S idx) q (ok && rc_ok e)
   | Ev503 :: t => find_env t (S idx) q ok
+  | EvRsetOk :: t => find_env t (S idx) q false        (* RSET ends the transaction *)
   | _ :: t => find_env t idx q ok
   end.
 
 (** the run is expected to deliver: no injected fault, enough data, within the size limit,
     one transaction *)
-Definition expect_delivery (cfg : rxcfg) (cmds : list (nat * bool * nat)) (stream : bytes) (rfail : option nat) : bool :=
-  negb (c_qinit_fail cfg) && match c_wfail cfg with None => true | Some _ => false end
+Definition expect_delivery (cfg : rxcfg) (qf : bool) (cmds : list (nat * bool * nat)) (stream : bytes) (rfail : option nat) : bool :=
+  negb qf && match c_wfail cfg with None => true | Some _ => false end
   && match rfail with None => true | Some _ => false end
   && Nat.leb (total cmds) (c_maxbytes cfg) && Nat.leb (total cmds) (length stream)
   && negb (match cmds with [] => true | _ => false end)
   && forallb (fun c => negb (snd (fst c))) (removelast cmds)
   && snd (fst (last cmds (0, false, 0))).
 
-Definition spec_ok_C19_rx (cfg : rxcfg) (cmds : list (nat * bool * nat)) (stream : bytes) (rfail : option nat)
+Definition cmd_last (c : nat * bool * nat) : bool := snd (fst c).
+
+Definition spec_ok_C19_rx (cfg : rxcfg) (qf : bool) (cmds : list (nat * bool * nat)) (stream : bytes) (rfail : option nat)
            (evs : list ev) : bool :=
   no_env_after_fail false evs &&
   match find_env evs 0 [] true with
-  | None => negb (expect_delivery cfg cmds stream rfail)
+  | None => negb (expect_delivery cfg qf cmds stream rfail)
   | Some (idx, n, q, ok, rest) =>
       let tot := total (firstn (S idx) cmds) in
       ok && Nat.eqb n tot && bytes_eqb q (crlf2lf (firstn tot stream))
+      && cmd_last (nth idx cmds (0, false, 0)) && forallb (fun c => negb (cmd_last c)) (firstn idx cmds)
       && negb (existsb is_env rest) && negb (existsb is_q rest)
   end.
+
+(** ** the same as a statement (Proofs/BdatRxSpecProofs.v: the checker decides it)
+
+    [evs] = the events of one transaction ([cmds] = its commands in order, one per
+    command terminator EvRc / Ev503 / RSET), [stream] = the octets from its start. *)
+Fixpoint count_term (evs : list ev) : nat :=
+  match evs with
+  | [] => 0
+  | (EvRc _ | Ev503 | EvRsetOk) :: t => S (count_term t)
+  | _ :: t => count_term t
+  end.
+(** every command so far returned 0 (or was refused for its syntax) and there was no RSET *)
+Fixpoint all_ok (evs : list ev) : bool :=
+  match evs with
+  | [] => true
+  | EvRc e :: t => rc_ok e && all_ok t
+  | EvRsetOk :: t => false
+  | _ :: t => all_ok t
+  end.
+
+Definition rx_ok (cfg : rxcfg) (qf : bool) (cmds : list (nat * bool * nat)) (stream : bytes) (rfail : option nat)
+           (evs : list ev) : Prop :=
+  (* a failed command is never followed by an envelope *)
+  no_env_after_fail false evs = true
+  (* the first envelope: sent by a LAST command whose predecessors all succeeded and were not LAST, announcing
+     exactly the octets of these commands; what was queued before is exactly their data, CRLF -> LF; nothing is
+     queued and no envelope is sent afterwards *)
+  /\ (forall pre n rest, evs = pre ++ EvEnv n :: rest -> existsb is_env pre = false ->
+        let idx := count_term pre in
+        let tot := total (firstn (S idx) cmds) in
+        all_ok pre = true /\ n = tot /\ queued pre = crlf2lf (firstn tot stream)
+        /\ cmd_last (nth idx cmds (0, false, 0)) = true
+        /\ forallb (fun c => negb (cmd_last c)) (firstn idx cmds) = true
+        /\ existsb is_env rest = false /\ existsb is_q rest = false)
+  (* and when nothing is in the way the message is delivered *)
+  /\ (expect_delivery cfg qf cmds stream rfail = true -> existsb is_env evs = true).
+
+(** ** sessions (several transactions): the events are cut at every accepted transaction start
+    EvBegin pos; the commands of the script are attributed to the events by their terminators *)
+Definition is_term (e : ev) : bool := match e with EvRc _ | Ev503 | EvRsetOk | EvBegin _ => true | _ => false end.
+
+(** the events of one script record: up to and including its terminator *)
+Fixpoint take_rec (evs : list ev) : list ev * list ev :=
+  match evs with
+  | [] => ([], [])
+  | e :: t => if is_term e then ([e], t) else let '(g, r) := take_rec t in (e :: g, r)
+  end.
+
+Fixpoint align (ops : list sop) (evs : list ev) : list (sop * list ev) * list ev :=
+  match ops with
+  | [] => ([], evs)
+  | op :: r => let '(g, rest) := take_rec evs in let '(l, rem) := align r rest in ((op, g) :: l, rem)
+  end.
+
+(** the specification's reading of a BDAT command line: "BDAT" SP 1*DIGIT [SP "LAST"], the number
+    in decimal below 2^64 (what strtoull accepts), LAST in any case, nothing else *)
+Definition is_dig (b : N) : bool := N.leb 48 b && N.leb b 57.
+Fixpoint digits_val (d : bytes) (acc : N) : N :=
+  match d with [] => acc | b :: t => digits_val t (acc * 10 + (b - 48))%N end.
+Fixpoint span_digits (l : bytes) : bytes * bytes :=
+  match l with
+  | b :: t => if is_dig b then let '(d, r) := span_digits t in (b :: d, r) else ([], l)
+  | [] => ([], [])
+  end.
+Definition is_last_word (w : bytes) : bool :=
+  match w with
+  | [l; a; s; t] => (N.eqb l 76 || N.eqb l 108) && (N.eqb a 65 || N.eqb a 97) && (N.eqb s 83 || N.eqb s 115) && (N.eqb t 84 || N.eqb t 116)
+  | _ => false
+  end.
+Definition is_bdat_sp (p : bytes) : bool :=
+  match p with
+  | [b; d; a; t; sp] => (N.eqb b 66 || N.eqb b 98) && (N.eqb d 68 || N.eqb d 100) && (N.eqb a 65 || N.eqb a 97)
+                        && (N.eqb t 84 || N.eqb t 116) && N.eqb sp 32
+  | _ => false
+  end.
+Definition bdat_arg (line : bytes) : option (N * bool) :=
+  if existsb (fun b => N.eqb b 0) line then None else       (* a NUL inside the line *)
+  if negb (is_bdat_sp (firstn 5 line)) then None else
+  let '(d, r) := span_digits (skipn 5 line) in
+  match d with
+  | [] => None
+  | _ => if N.ltb 18446744073709551615 (digits_val d 0) then None else
+         match r with
+         | [] => Some (digits_val d 0, false)
+         | sp :: w => if N.eqb sp 32 && is_last_word w then Some (digits_val d 0, true) else None
+         end
+  end.
+
+(** one script record as a command of the single-transaction statement; a chunk size beyond the
+    [slen] octets the peer ever sends is cut to slen + 1 (such a command cannot complete) *)
+Definition rec_cmd (slen : nat) (r : sop * list ev) : nat * bool * nat :=
+  match fst r with
+  | OpLine _ line => match bdat_arg line with
+                     | Some (n, l) => (N.to_nat (N.min n (N.of_nat (S slen))), l, 0)
+                     | None => (0, false, 0) end
+  | _ => (0, false, 0)
+  end.
+Definition rec_valid (r : sop * list ev) : bool :=
+  match fst r with
+  | OpLine _ line => Nat.leb (length line) 510 && match bdat_arg line with Some _ => true | None => false end
+  | _ => false
+  end.
+Definition rec_begin (r : sop * list ev) : option (nat * bool) :=
+  match fst r, last (snd r) Ev503 with
+  | OpBegin _ qf, EvBegin pos => Some (pos, qf)
+  | _, _ => None
+  end.
+
+(** cut the records into the prelude and the transactions (start position, queue_init fault, records) *)
+Fixpoint segments (recs : list (sop * list ev)) (cur : option (nat * bool * list (sop * list ev)))
+         (acc : list (nat * bool * list (sop * list ev))) (prelude : list (sop * list ev))
+  : list (sop * list ev) * list (nat * bool * list (sop * list ev)) :=
+  match recs with
+  | [] => (prelude, acc ++ match cur with Some c => [c] | None => [] end)
+  | r :: t =>
+      match rec_begin r with
+      | Some (pos, qf) => segments t (Some (pos, qf, [])) (acc ++ match cur with Some c => [c] | None => [] end) prelude
+      | None => match cur with
+                | Some (pos, qf, l) => segments t (Some (pos, qf, l ++ [r])) acc prelude
+                | None => segments t None acc (prelude ++ [r])
+                end
+      end
+  end.
+
+Definition seg_events (l : list (sop * list ev)) : list ev := concat (map snd l).
+
+(** every transaction of a session satisfies the single-transaction statement with ITS commands and
+    the stream from ITS start; outside transactions nothing is queued *)
+Definition rxs_ok (cfg : rxcfg) (ops : list sop) (stream : bytes) (rfail : option nat) (evs : list ev) : Prop :=
+  let '(recs, rem) := align ops evs in
+  let '(prelude, segs) := segments recs None [] [] in
+  rem = [] /\ existsb is_env (seg_events prelude) = false /\ existsb is_q (seg_events prelude) = false
+  /\ Forall (fun sg => let '(pos, qf, l) := sg in
+        rx_ok cfg (qf || negb (forallb rec_valid l)) (map (rec_cmd (length stream)) l) (skipn pos stream) rfail (seg_events l)) segs.
+
+Definition spec_ok_C19_rxs (cfg : rxcfg) (ops : list sop) (stream : bytes) (rfail : option nat) (evs : list ev) : bool :=
+  let '(recs, rem) := align ops evs in
+  let '(prelude, segs) := segments recs None [] [] in
+  match rem with [] => true | _ => false end
+  && negb (existsb is_env (seg_events prelude)) && negb (existsb is_q (seg_events prelude))
+  && forallb (fun sg => let '(pos, qf, l) := sg in
+        spec_ok_C19_rx cfg (qf || negb (forallb rec_valid l)) (map (rec_cmd (length stream)) l) (skipn pos stream) rfail (seg_events l)) segs.
